@@ -4,6 +4,14 @@ from stages import *  # noqa: F401,F403
 import stages
 
 
+def fixed_trace(run, site):
+    rounds = 25 if run.quick() else 250
+    tlc, s = run_record_validate(run, "session", "session", "Trace_Session.tla", run.pid, site, rounds, shards=12, focus="C12", unit="new", timeout=6000)
+    run.add(tlc, s)
+    run.rule += ("  ||  impl -> spec: 12 x %d recorded random histories (see C01) validated against Trace_Session with Focus=C12: in fixed mode with old vowel order off every key "
+                 "must lead to a text PropKeySet allows for the value Layout.Expected assigns to the key code, every backspace removes exactly one code point" % rounds)
+
+
 def c12(run):
     run.rule = ("TLC enumerates every history of key values/backspaces up to the depth over the class alphabet "
                 "(24 values incl. multi-code-point keys) x 16 helper settings; each maximal history is replayed through "
@@ -15,6 +23,7 @@ def c12(run):
                                  invariants=["ImplRefinesProp", "AutoVowelInv", "Emit"]),
                             "C12", workers=4, threads=8)
     run.add(tlc, s)
+    fixed_trace(run, "compose")
     run.assumptions += ["class representatives stand for their class (one consonant etc.); edge characters on which "
                         "riti's tables and the Unicode chart differ are outside the normative alphabet",
                         "bounded exhaustiveness: depth %d" % depth]
@@ -112,16 +121,31 @@ def session(run, sites, quick_depth=4, thorough_depth=5):
                         "the learned-selection store is held fixed: phonetic commits use the preselected index"]
 
 
+SESSION_TRACE_RULE = ("  ||  impl -> spec: 12 x %d recorded random in-contract histories of 40-120 events (all 111 key codes, modifiers incl. stray high bits, valid selection "
+                      "bytes, backspace / ctrl-backspace, commits inside the shown list, finish, update-engine while idle to a random configuration; both methods, both layouts, "
+                      "random options, real dictionary) validated by TLC against Trace_Session with Focus=%s (the spec tracks the typed characters / the composed text itself)")
+
+
+def session_trace(run, focus, site):
+    rounds = 25 if run.quick() else 250
+    tlc, s = run_record_validate(run, "session", "session", "Trace_Session.tla", run.pid, site, rounds, shards=12, focus=focus, unit="new", timeout=6000)
+    run.add(tlc, s)
+    run.rule += SESSION_TRACE_RULE % (rounds, focus)
+
+
 def c01(run):
     session(run, {"panic"})
+    session_trace(run, "C01", "panic")
 
 
 def c02(run):
     session(run, {"wf"})
+    session_trace(run, "C02", "wf")
 
 
 def c06(run):
     session(run, {"flag", "fresh"})
+    session_trace(run, "C06", "flag")
 
 
 def c03(run):
